@@ -805,6 +805,39 @@ func Differential(base, mod *Run) []Finding {
 	return out
 }
 
+// CheckPanicFirst judges the panic-first scenario: the Scheduler Loop of a
+// fail-fast directive had recorded the panic of unit PFirst-1 before any
+// other function could fail, so the returned error must carry it.
+func CheckPanicFirst(r *Run) []Finding {
+	e, scn := r.Env, r.Env.Scn
+	if scn.PFirst == 0 || e.PFirstUnreleased.Load() {
+		return nil
+	}
+	var inj *Injected
+	e.mu.Lock()
+	for i := range e.Injected {
+		if e.Injected[i].Unit == scn.PFirst-1 {
+			inj = &e.Injected[i]
+		}
+	}
+	e.mu.Unlock()
+	if inj == nil {
+		return nil // the unit never ran
+	}
+	if r.Err != nil && matchInjected(r.Err, *inj) {
+		return nil
+	}
+	var tl strings.Builder
+	e.mu.Lock()
+	for _, ev := range e.Events {
+		if ev.Kind == "call" {
+			fmt.Fprintf(&tl, " unit %d: start %d end %d;", ev.Unit, ev.Start, ev.End)
+		}
+	}
+	e.mu.Unlock()
+	return []Finding{{Prop: "C04", Msg: fmt.Sprintf("unit %d panicked and the Scheduler Loop had finished processing that result before any other function went on, yet the directive returned %q: errors.As yields no *cff.PanicError carrying the panic value (timeline:%s call %d return %d; hook results seen %d settled %d base %d)", scn.PFirst-1, firstLine(r.Err), tl.String(), e.CallSeq, e.RetSeq, HookSeen(), HookSettled(), e.pfBase.Load())}}
+}
+
 // RdvPlan returns, for a parallel directive, the units whose invocations have
 // no dependency (tasks, element functions, and the End function of an empty or
 // nil collection) and how many such invocations the scenario produces.
